@@ -22,7 +22,8 @@
     that keeps the text and leaf nodes.  Helpers: Proofs/Level.lean, LevelReplace.lean, ContentBetween.lean,
     SplitSuccess.lean, JoinSuccess.lean, LiftSuccess.lean, LiftSplit.lean, WrapSuccess.lean.
   * **an approved insertion succeeds** (`insert_point`, `drop_point`, `join_point`; section INSERT below):
-    `insertPoint_insert_applies` (`insertGuard`: the answer is a child boundary and its parent allows the node's marks;
+    `insertPoint_insert_applies` (`insertGuard`: `insideTextGuard` — the answer is a child boundary, or inside a text child
+    whose parent accepts `text n text` — and the parent allows the node's marks;
     `TextStable`): `tr.insert(p, n)` plans `ReplaceStep(p, p, Slice([n], 0, 0))` (`fits_trivially`), the step applies, the
     result is valid; `dropPoint_drop_applies_closed` (closed slice answered by the first pass, `dropGuard`, `TextStable`):
     the same for `tr.replace(p, p, slice)`; `dropPoint_drop_applies_partial` (open slices / second pass: through the Fitter,
@@ -1200,9 +1201,9 @@ example : liftGuard exSchema liftDoc 2 3 1 0 = true ∧ liftGuard lift2Schema li
         parent's content, marks included (`insMarkSchema` below: a marked paragraph into `doc`);
     (b) when `pos` is strictly inside a text child and the parent approves, `insert_point` returns `pos` itself; the test
         read "`n` in front of that text", the insertion puts `n` between its two halves (`insTextSchema` below: content
-        `image? text* image`).  Inside a text child of a `text*` / `inline*` parent the insertion does succeed; the
-        theorem below does not cover that case (its weakest guard there would be
-        `parent.can_replace(index + 1, index + 1, [n, text])`; not proved: the replace lemma for a cut text child). -/
+        `image? text* image`).  The guard asks there for `parent.can_replace(index + 1, index + 1, [n, that text])` and a
+        cut that does not fall inside a surrogate pair (`insideTextGuardR`); it holds inside every text child of a
+        `text*` / `inline*` parent, and at every child boundary. -/
 
 private theorem fnorm_single (n : Node) (h : n.norm = true) : fnorm [n] = true := by
   simp [fnorm, fnormKids, chainOk, h]
@@ -1228,34 +1229,43 @@ theorem insertPoint_insert_applies (S : Schema) (hts : C01.TextStable S) (doc : 
     | leaf t a m => simp [C01.IsElem, Node.isLeaf] at hdoc
     | elem ty0 a0 m0 K =>
       have hn' : fnorm K = true := by simpa [Node.kids] using hn
-      -- where the answer lies
-      have hat : ∃ d sd i, (d < r.depth ∨ r.textOffset = 0) ∧ AtBoundary r d sd i p ∧
-          S.nodeCanReplaceWith (r.node d) i i ty = some true := by
-        rcases insertPointR_spec S r ty p hc with ⟨hp, hcr⟩ | ⟨d, sd, i, hd, hat, hcr⟩
-        · refine ⟨r.depth, .before, r.index r.depth, .inr ?_, ⟨Nat.le_refl _, rfl, by rw [hp]; exact before_innermost r⟩, hcr⟩
-          rw [hp, R.pos_eq] at hg
-          simp only [insertGuard, hr, Bool.and_eq_true, beq_iff_eq] at hg
-          exact hg.1
-        · exact ⟨d, sd, i, .inl hd, hat, hcr⟩
-      obtain ⟨d, sd, i, hb, hat, hcr⟩ := hat
-      obtain ⟨rp, hrp, htyp, _, _, _⟩ := boundary_resolve S hr hn' d sd i p hb hat
-      simp only [insertGuard, hrp, Bool.and_eq_true] at hg
-      rw [htyp] at hg
-      have hcr' : S.nodeCanReplace (r.node d) i i [n] = some true := by
+      have hnC := fnorm_single n hnn
+      have hpos := Node.size_pos_of_norm n hnn
+      have conv : ∀ (node : Node) (i : Nat), (S.nodeType (S.tyOf node)).allowsMarks n.marks = true →
+          S.nodeCanReplaceWith node i i ty = some true → S.nodeCanReplace node i i [n] = some true := by
+        intro node i hm hcr
         unfold Schema.nodeCanReplaceWith at hcr
         unfold Schema.nodeCanReplace
         split at hcr
         · simp at hcr
         · rename_i hlen
           rw [if_neg hlen]
-          exact canReplace_of_with S _ _ i i n ty hty hg.2 hcr
-      have hnC := fnorm_single n hnn
-      obtain ⟨doc', hap⟩ := boundary_insert_applies S hts ty0 a0 m0 K pos r hr hv hn' d sd i p hb hat [n] hnC hcr'
-      have hft := boundary_fitsTrivially S hr hn' d sd i p hb hat [n]
-      rw [hcr'] at hft
-      have hpos := Node.size_pos_of_norm n hnn
-      refine ⟨replaceStep_trivial S _ p p _ (by simp [Slice.size]; omega) hft, doc', hap, ?_⟩
-      exact C01.apply_valid S _ _ doc' hv (by simp [C01.PayloadValid, openValid, rightOpenValid, hvn]) hap
+          exact canReplace_of_with S _ _ i i n ty hty hm hcr
+      have fin : fitsTriviallyO S (.elem ty0 a0 m0 K) p p ⟨[n], 0, 0⟩ = some true →
+          (∃ doc', S.apply (.replace p p ⟨[n], 0, 0⟩ false) (.elem ty0 a0 m0 K) = .ok doc') →
+          replaceStep S (.elem ty0 a0 m0 K) p p ⟨[n], 0, 0⟩ = .ok (some (.replace p p ⟨[n], 0, 0⟩ false)) ∧
+          ∃ doc', S.apply (.replace p p ⟨[n], 0, 0⟩ false) (.elem ty0 a0 m0 K) = .ok doc' ∧ C01.Valid S doc' := by
+        intro hft ⟨doc', hap⟩
+        refine ⟨replaceStep_trivial S _ p p _ (by simp [Slice.size]; omega) hft, doc', hap, ?_⟩
+        exact C01.apply_valid S _ _ doc' hv (by simp [C01.PayloadValid, openValid, rightOpenValid, hvn]) hap
+      rcases insertPointR_spec S r ty p hc with ⟨hp, hcr⟩ | ⟨d, sd, i, hd, hat, hcr⟩
+      · -- the position itself
+        rw [hp, R.pos_eq] at hg ⊢
+        simp only [insertGuard, hr, Bool.and_eq_true] at hg
+        have hcr' := conv r.parent _ hg.2 hcr
+        obtain ⟨hft, hap⟩ := innermost_insert_applies S hts ty0 a0 m0 K pos r hr hv hn' [n] hnC hg.1 hcr'
+        rw [hp, R.pos_eq] at fin
+        exact fin hft hap
+      · -- a boundary of an ancestor
+        have hb : d < r.depth ∨ r.textOffset = 0 := .inl hd
+        obtain ⟨rp, hrp, htyp, _, _, _⟩ := boundary_resolve S hr hn' d sd i p hb hat
+        simp only [insertGuard, hrp, Bool.and_eq_true] at hg
+        rw [htyp] at hg
+        have hcr' := conv (r.node d) i hg.2 hcr
+        have hap := boundary_insert_applies S hts ty0 a0 m0 K pos r hr hv hn' d sd i p hb hat [n] hnC hcr'
+        have hft := boundary_fitsTrivially S hr hn' d sd i p hb hat [n]
+        rw [hcr'] at hft
+        exact fin hft hap
 
 /-- a non-trivial instance of all hypotheses: a blockquote for position 2 of `exDoc` (start of the first paragraph) goes
     in front of that paragraph, at position 1 -/
@@ -1264,6 +1274,14 @@ example : ∃ doc', exSchema.apply (.replace 1 1 ⟨[.elem 1 [] [] [.elem 2 [] [
   (insertPoint_insert_applies exSchema ex_stable exDoc 2 1 1 (.elem 1 [] [] [.elem 2 [] [] []]) rfl rfl rfl rfl rfl rfl
     rfl rfl).2
 example : insertGuard exSchema exDoc 1 (.elem 1 [] [] [.elem 2 [] [] []]) = true := by rfl
+
+/-- … and strictly inside a text child: `doc(p("ab"))`, the text node "x" at position 2 gives `doc(p("axb"))` -/
+private def exDocT : Node := .elem 0 [] [] [.elem 2 [] [] [.text [97, 98] []]]
+example : insertPoint exSchema exDocT 2 3 = some (some 2) ∧ insertGuard exSchema exDocT 2 (.text [120] []) = true ∧
+    insideTextGuard exSchema exDocT 2 [.text [120] []] = true := ⟨rfl, rfl, rfl⟩
+example : ∃ doc', exSchema.apply (.replace 2 2 ⟨[.text [120] []], 0, 0⟩ false) exDocT = .ok doc' ∧
+    C01.Valid exSchema doc' :=
+  (insertPoint_insert_applies exSchema ex_stable exDocT 2 3 2 (.text [120] []) rfl rfl rfl rfl rfl rfl rfl rfl).2
 
 /-- the guard is needed, (a): `doc: block+` (no marks allowed on its children), a paragraph carrying `em` -/
 private def insMarkSchema : Schema :=
@@ -1311,7 +1329,7 @@ theorem insertPoint_needs_guard_text :
     `drop_point` answers in two passes.  The first asks, walking up from `pos`, `node(d).can_replace(i, i, content)` for
     the slice's content below its open start; for a **closed** slice that is `fits_trivially` at the returned position:
     `tr.replace(p, p, slice)` (the edit harness/props/c12.py performs) is `ReplaceStep(p, p, slice)`.  Guard
-    (`dropGuard`): `p` not strictly inside a text child (as (b) above: `dropTextCex` below).  For an open slice, or an
+    (`dropGuard` = `insideTextGuard`, as (b) above; counterexample `dropPoint_needs_guard` below).  For an open slice, or an
     answer of the second pass (a wrapping for the first node exists), the edit goes through the Fitter:
     `dropPoint_drop_applies_partial`. -/
 
@@ -1339,7 +1357,7 @@ theorem dropPoint_of_pass1 (S : Schema) (doc : Node) (pos : Nat) (sl : Slice) (p
 theorem dropPoint_drop_applies_closed (S : Schema) (hts : C01.TextStable S) (doc : Node) (pos : Nat) (C : List Node)
     (p : Nat) (hdoc : C01.IsElem doc) (hv : C01.Valid S doc) (hn : fnorm doc.kids = true)
     (hvC : S.checkKids C = true) (hnC : fnorm C = true) (hsz : fsize C ≠ 0)
-    (hg : dropGuard doc p = true)
+    (hg : dropGuard S doc p C = true)
     (hc : dropPointPass1 S doc pos ⟨C, 0, 0⟩ = some (some p)) :
     dropPoint S doc pos ⟨C, 0, 0⟩ = some (some p) ∧
     replaceStep S doc p p ⟨C, 0, 0⟩ = .ok (some (.replace p p ⟨C, 0, 0⟩ false)) ∧
@@ -1357,17 +1375,27 @@ theorem dropPoint_drop_applies_closed (S : Schema) (hts : C01.TextStable S) (doc
     | elem ty0 a0 m0 K =>
       have hn' : fnorm K = true := by simpa [Node.kids] using hn
       obtain ⟨d, sd, i, hd, hcase, hat, hcr⟩ := dropLoop_spec S r C (r.depth + 1) p (Nat.le_refl _) hc
-      have hb : d < r.depth ∨ r.textOffset = 0 := by
-        rcases hcase with h | h
-        · exact .inl h
-        · rw [h, R.pos_eq] at hg
-          simp only [dropGuard, hr, beq_iff_eq] at hg
-          exact .inr hg
-      obtain ⟨doc', hap⟩ := boundary_insert_applies S hts ty0 a0 m0 K pos r hr hv hn' d sd i p hb hat C hnC hcr
-      have hft := boundary_fitsTrivially S hr hn' d sd i p hb hat C
-      rw [hcr] at hft
-      refine ⟨replaceStep_trivial S _ p p _ (by simp [Slice.size]; omega) hft, doc', hap, ?_⟩
-      exact C01.apply_valid S _ _ doc' hv (by simp [C01.PayloadValid, openValid, rightOpenValid, hvC]) hap
+      have fin : fitsTriviallyO S (.elem ty0 a0 m0 K) p p ⟨C, 0, 0⟩ = some true →
+          (∃ doc', S.apply (.replace p p ⟨C, 0, 0⟩ false) (.elem ty0 a0 m0 K) = .ok doc') →
+          replaceStep S (.elem ty0 a0 m0 K) p p ⟨C, 0, 0⟩ = .ok (some (.replace p p ⟨C, 0, 0⟩ false)) ∧
+          ∃ doc', S.apply (.replace p p ⟨C, 0, 0⟩ false) (.elem ty0 a0 m0 K) = .ok doc' ∧ C01.Valid S doc' := by
+        intro hft ⟨doc', hap⟩
+        refine ⟨replaceStep_trivial S _ p p _ (by simp [Slice.size]; omega) hft, doc', hap, ?_⟩
+        exact C01.apply_valid S _ _ doc' hv (by simp [C01.PayloadValid, openValid, rightOpenValid, hvC]) hap
+      rcases hcase with hlt | hp
+      · have hb : d < r.depth ∨ r.textOffset = 0 := .inl hlt
+        have hap := boundary_insert_applies S hts ty0 a0 m0 K pos r hr hv hn' d sd i p hb hat C hnC hcr
+        have hft := boundary_fitsTrivially S hr hn' d sd i p hb hat C
+        rw [hcr] at hft
+        exact fin hft hap
+      · -- the position itself
+        obtain ⟨hde, _, hi, hp⟩ := hp
+        subst hde
+        rw [hp, R.pos_eq] at hg fin ⊢
+        simp only [dropGuard, insideTextGuard, hr] at hg
+        rw [hi] at hcr
+        obtain ⟨hft, hap⟩ := innermost_insert_applies S hts ty0 a0 m0 K pos r hr hv hn' C hnC hg hcr
+        exact fin hft hap
 
 /-- a non-trivial instance of all hypotheses: `blockquote(p)` dropped at position 2 of `exDoc` goes to position 1 -/
 example : dropPoint exSchema exDoc 2 ⟨[.elem 1 [] [] [.elem 2 [] [] []]], 0, 0⟩ = some (some 1) ∧
@@ -1378,9 +1406,15 @@ example : dropPoint exSchema exDoc 2 ⟨[.elem 1 [] [] [.elem 2 [] [] []]], 0, 0
   dropPoint_drop_applies_closed exSchema ex_stable exDoc 2 [.elem 1 [] [] [.elem 2 [] [] []]] 1 rfl rfl rfl rfl rfl
     (by decide) rfl rfl
 
+/-- … and strictly inside a text child: the closed slice `["x"]` dropped at position 2 of `doc(p("ab"))` -/
+example : dropPoint exSchema exDocT 2 ⟨[.text [120] []], 0, 0⟩ = some (some 2) ∧
+    replaceStep exSchema exDocT 2 2 ⟨[.text [120] []], 0, 0⟩ = .ok (some (.replace 2 2 ⟨[.text [120] []], 0, 0⟩ false)) ∧
+    ∃ doc', exSchema.apply (.replace 2 2 ⟨[.text [120] []], 0, 0⟩ false) exDocT = .ok doc' ∧ C01.Valid exSchema doc' :=
+  dropPoint_drop_applies_closed exSchema ex_stable exDocT 2 [.text [120] []] 2 rfl rfl rfl rfl rfl (by decide) rfl rfl
+
 /-- the guard is needed: in `insTextSchema`, `doc(p("ab", image))`, the closed slice `[image]` dropped at position 2 -/
 example : dropPointPass1 insTextSchema splitCexDoc 2 ⟨[.leaf 3 [] []], 0, 0⟩ = some (some 2) := by rfl
-example : dropGuard splitCexDoc 2 = false := by rfl
+example : dropGuard insTextSchema splitCexDoc 2 [.leaf 3 [] []] = false := by rfl
 /-- (the refused step is `insertPoint_needs_guard_text`) -/
 theorem dropPoint_needs_guard :
     dropPoint insTextSchema splitCexDoc 2 ⟨[.leaf 3 [] []], 0, 0⟩ = some (some 2) ∧
